@@ -46,6 +46,10 @@ SUITES = {
     "big_plain":   ("big",    "plain", [],                    "release", (1, 2),    (30000, 150000)),
     "big_heap":    ("big",    "heap",  [],                    "debug",   (1, 1),    (6000, 40000)),
     "big_collide": ("big",    "plain", ["--hm", "2"],         "release", (1, 1),    (1500, 6000)),
+    # spec -> implementation: TLC-simulated behaviours of SimCount.tla concretised through the hook;
+    # runs = behaviours, events = depth
+    "sim_plain":   ("sim",    "plain", [],                    "debug",   (30, 400), (45, 60)),
+    "sim_heap":    ("sim",    "heap",  [],                    "release", (30, 400), (45, 60)),
     "defects":     ("scripts", None,   [],                    "both",    (1, 1),    (0, 0)),
 }
 
@@ -63,6 +67,8 @@ MC_DEPS = {
     "Small": ["Hashbrown.tla", "Griddle.tla", "GriddleCount.tla", "MCGriddle.tla"],
     "CountR8": ["Hashbrown.tla", "GriddleCount.tla", "MCCount.tla"],
     "Fault": ["Hashbrown.tla", "Griddle.tla", "GriddleCount.tla", "MCGriddle.tla"],
+    "Overflow": ["Hashbrown.tla", "GriddleCount.tla", "MCCount.tla"],
+    "OverflowDbg": ["Hashbrown.tla", "GriddleCount.tla", "MCCount.tla"],
 }
 
 MC = {
@@ -74,6 +80,15 @@ MC = {
         "quick": ("MCGriddle", "MCFault", 6, 900),
         "thorough": ("MCGriddle", "MCFault6", 12, 7200),
     },
+    # every n, m in 0..MaxUsize (a 1-byte usize) in every reachable state: wraps, checked_mul, layout limit
+    "Overflow": {
+        "quick": ("MCCount", "MCOverflow", 6, 900),
+        "thorough": ("MCCount", "MCOverflow", 6, 900),
+    },
+    "OverflowDbg": {
+        "quick": ("MCCount", "MCOverflowDbg", 6, 900),
+        "thorough": ("MCCount", "MCOverflowDbg", 6, 900),
+    },
     "CountR8": {
         "quick": ("MCCount", "MCCountR8_64", 8, 900),
         "thorough": ("MCCount", "MCCountR8", 12, 3600),
@@ -83,11 +98,11 @@ MC = {
 ALL_MAP = ["core_heap", "core_plain", "core_zst", "rel_heap", "defects"]
 
 PROPS = {
-    "C01": dict(suites=["tomb_plain", "tomb_heap", "core_heap", "core_plain", "core_zst", "rel_heap", "rel_plain", "defects"], mc=["Small", "CountR8"]),
-    "C02": dict(suites=["big_plain", "big_heap", "big_collide", "tomb_plain", "tomb_heap", "core_plain", "rel_plain", "core_heap", "defects"], mc=["CountR8"]),
-    "C03": dict(suites=["big_plain", "big_heap", "big_collide", "tomb_plain", "tomb_heap", "core_plain", "core_heap", "rel_plain", "set_heap", "defects"], mc=["Small", "CountR8"]),
-    "C04": dict(suites=["big_plain", "big_heap", "big_collide", "tomb_plain", "tomb_heap", "core_plain", "rel_plain", "limits_dbg", "limits_rel", "two_heap", "defects"], mc=["Small", "CountR8"]),
-    "C05": dict(suites=["fault_heap", "fault_heap_rel", "tomb_plain", "tomb_heap", "core_heap", "rel_heap", "core_zst", "set_heap", "set_zst", "two_heap", "two_plain_rel", "defects"], mc=["Small", "CountR8"], asan=["two_heap", "two_plain_rel", "core_heap", "fault_heap", "set_heap", "tomb_heap", "defects"]),
+    "C01": dict(suites=["sim_plain", "sim_heap", "tomb_plain", "tomb_heap", "core_heap", "core_plain", "core_zst", "rel_heap", "rel_plain", "defects"], mc=["Small", "CountR8"]),
+    "C02": dict(suites=["sim_plain", "sim_heap", "big_plain", "big_heap", "big_collide", "tomb_plain", "tomb_heap", "core_plain", "rel_plain", "core_heap", "defects"], mc=["CountR8"]),
+    "C03": dict(suites=["sim_plain", "sim_heap", "big_plain", "big_heap", "big_collide", "tomb_plain", "tomb_heap", "core_plain", "core_heap", "rel_plain", "set_heap", "defects"], mc=["Small", "CountR8"]),
+    "C04": dict(suites=["sim_plain", "sim_heap", "big_plain", "big_heap", "big_collide", "tomb_plain", "tomb_heap", "core_plain", "rel_plain", "limits_dbg", "limits_rel", "two_heap", "defects"], mc=["Small", "CountR8"], apalache=True),
+    "C05": dict(suites=["sim_plain", "sim_heap", "fault_heap", "fault_heap_rel", "tomb_plain", "tomb_heap", "core_heap", "rel_heap", "core_zst", "set_heap", "set_zst", "two_heap", "two_plain_rel", "defects"], mc=["Small", "CountR8"], asan=["two_heap", "two_plain_rel", "core_heap", "fault_heap", "set_heap", "tomb_heap", "defects"]),
     "C06": dict(suites=["core_heap", "rel_heap", "two_heap", "set_heap", "set_two", "defects"], mc=["Small"]),
     # after an injected panic *every* monitor is part of "the map stays memory-safe and self-consistent,
     # later operations behave normally": any failure in these suites counts for C07
@@ -95,7 +110,7 @@ PROPS = {
                 any_monitor=True),
     "C08": dict(suites=["core_heap", "rel_heap", "core_plain", "set_heap", "core_zst"], mc=["Small"]),
     "C09": dict(suites=["core_heap", "rel_heap", "core_plain", "set_heap", "set_zst"], mc=["Small"]),
-    "C10": dict(suites=["limits_dbg", "limits_rel", "core_plain", "rel_plain", "set_heap", "defects"], mc=["CountR8"]),
+    "C10": dict(suites=["sim_plain", "sim_heap", "limits_dbg", "limits_rel", "core_plain", "rel_plain", "set_heap", "defects"], mc=["CountR8", "Overflow", "OverflowDbg"]),
     # the two-slot suites exist to exercise clone / clone_from followed by divergent histories: there,
     # any failed monitor (a lookup missing in the clone, an effect seen through the other map, ...) is C11's
     "C11": dict(suites=["two_heap", "two_plain_rel", "set_two", "defects"], mc=[], any_monitor=True),
@@ -108,7 +123,7 @@ PROPS = {
     "C16": dict(suites=["serde_map", "serde_set", "serde_zst"], mc=[]),
 }
 
-PROPS["C17"] = dict(suites=["diff_plain", "diff_heap", "diff_two", "diff_set", "diff_zst", "limits_dbg", "limits_rel", "defects"], mc=["CountR8"])
+PROPS["C17"] = dict(suites=["diff_plain", "diff_heap", "diff_two", "diff_set", "diff_zst", "limits_dbg", "limits_rel", "defects"], mc=["CountR8", "Overflow", "OverflowDbg"])
 
 LEVEL = {p: "model_checking" for p in PROPS}
 LEVEL["C07"] = "fault_enumeration"
